@@ -18,9 +18,18 @@ import (
 
 type SkipMethod struct {
 	Name      string   `json:"name"`
-	Notations []string `json:"notations"` // in order: ":case", ":case:off", ":skip <pattern>"
+	Notations []string `json:"notations"` // in order: ":case", ":case:off", ":skip <pattern>", ":literal <path> <n>", ":map <src> <path>"
 	Patterns  []string `json:"patterns"`
 	ExactCase bool     `json:"exact_case"` // the method's case rule (last :case / :case:off wins)
+	// explicit sources: :literal and :map destinations always compare case-sensitively,
+	// whatever the case rule; a :map wins over a :literal, the first of a kind wins
+	Literals []SkipExplicit `json:"literals,omitempty"`
+	Maps     []SkipExplicit `json:"maps,omitempty"`
+}
+
+type SkipExplicit struct {
+	Path string `json:"path"` // destination path as written in the notation
+	RHS  string `json:"rhs"`  // the literal text, or the source field
 }
 
 type SkipCase struct {
@@ -140,6 +149,39 @@ func genSkipCase(cfg Config, i int) SkipCase {
 			sm.Patterns = append(sm.Patterns, p)
 			sm.Notations = append(sm.Notations, ":skip "+p)
 		}
+		// explicit sources on (case variants of) top-level fields
+		for j, ne := 0, r.Intn(3); j < ne; j++ {
+			f := sim.Pick(r, fields)
+			path := f
+			switch r.Intn(4) {
+			case 0:
+				path = strings.ToLower(f)
+			case 1:
+				path = strings.ToUpper(f)
+			}
+			if strings.ContainsAny(path, " \t") {
+				continue
+			}
+			if r.Bool() {
+				lit := fmt.Sprint(9001 + m*10 + j)
+				sm.Literals = append(sm.Literals, SkipExplicit{path, lit})
+				sm.Notations = append(sm.Notations, ":literal "+path+" "+lit)
+			} else {
+				// a source field that the default name match could never pick for this destination
+				var cands []string
+				for _, sf := range fields {
+					if !strings.EqualFold(sf, f) {
+						cands = append(cands, sf)
+					}
+				}
+				if len(cands) == 0 {
+					continue
+				}
+				sf := sim.Pick(r, cands)
+				sm.Maps = append(sm.Maps, SkipExplicit{path, sf})
+				sm.Notations = append(sm.Notations, ":map "+sf+" "+path)
+			}
+		}
 		if r.Chance(1, 3) {
 			if r.Bool() {
 				sm.Notations = append(sm.Notations, ":case:off")
@@ -148,6 +190,33 @@ func genSkipCase(cfg Config, i int) SkipCase {
 				sm.Notations = append(sm.Notations, ":case")
 				sm.ExactCase = true
 			}
+		}
+		if r.Chance(1, 2) {
+			sim.Shuffle(r, sm.Notations)
+			// the case rule is the last toggle in the final order
+			sm.ExactCase = true
+			for _, nline := range sm.Notations {
+				if nline == ":case:off" {
+					sm.ExactCase = false
+				} else if nline == ":case" {
+					sm.ExactCase = true
+				}
+			}
+			// first-of-a-kind order follows the final order as well
+			var ls, ms []SkipExplicit
+			var ps []string
+			for _, nline := range sm.Notations {
+				f := strings.Fields(nline)
+				switch f[0] {
+				case ":literal":
+					ls = append(ls, SkipExplicit{f[1], f[2]})
+				case ":map":
+					ms = append(ms, SkipExplicit{f[2], f[1]})
+				case ":skip":
+					ps = append(ps, f[1])
+				}
+			}
+			sm.Literals, sm.Maps, sm.Patterns = ls, ms, ps
 		}
 		c.Methods = append(c.Methods, sm)
 	}
@@ -189,7 +258,7 @@ func genSkipCase(cfg Config, i int) SkipCase {
 
 var reFuncStart = regexp.MustCompile(`^func (\w+)\(`)
 var reSkipLine = regexp.MustCompile(`^\s*// skip: dst\.(\S+)\s*$`)
-var reAssignLine = regexp.MustCompile(`^\s*dst\.(\S+) = `)
+var reAssignLine = regexp.MustCompile(`^\s*dst\.(\S+) = (.*)$`)
 var reNoMatchLine = regexp.MustCompile(`^\s*// no match: dst\.(\S+)\s*$`)
 
 func execSkip(env *sim.Env, c SkipCase) CaseResult {
@@ -241,12 +310,15 @@ func execSkip(env *sim.Env, c SkipCase) CaseResult {
 		return res
 	}
 	// observed decisions per generated function
-	type obs struct{ skipped, assigned, nomatch map[string]bool }
+	type obs struct {
+		skipped, assigned, nomatch map[string]bool
+		rhs                        map[string]string
+	}
 	seen := map[string]*obs{}
 	var cur *obs
 	for _, line := range strings.Split(string(r.Obs.Stdout), "\n") {
 		if m := reFuncStart.FindStringSubmatch(line); m != nil {
-			cur = &obs{map[string]bool{}, map[string]bool{}, map[string]bool{}}
+			cur = &obs{map[string]bool{}, map[string]bool{}, map[string]bool{}, map[string]string{}}
 			seen[m[1]] = cur
 			continue
 		}
@@ -259,6 +331,7 @@ func execSkip(env *sim.Env, c SkipCase) CaseResult {
 			cur.nomatch[m[1]] = true
 		} else if m := reAssignLine.FindStringSubmatch(line); m != nil {
 			cur.assigned[m[1]] = true
+			cur.rhs[m[1]] = strings.TrimSpace(m[2])
 		}
 	}
 	for mi := range c.Methods {
@@ -317,6 +390,48 @@ func execSkip(env *sim.Env, c SkipCase) CaseResult {
 		for p := range o.skipped {
 			if !wantSkip[p] {
 				diffs = append(diffs, "skipped, should not be: "+p)
+			}
+		}
+		// explicit sources: applied iff the destination path is EXACTLY the field, under either case rule
+		for _, f := range c.Fields {
+			if wantSkip[f] {
+				continue
+			}
+			want := ""
+			for _, e := range m.Maps {
+				if e.Path == f {
+					want = "src." + e.RHS
+					break
+				}
+			}
+			if want == "" {
+				for _, e := range m.Literals {
+					if e.Path == f {
+						want = e.RHS
+						break
+					}
+				}
+			}
+			got := o.rhs[f]
+			explicit := map[string]bool{}
+			for _, e := range m.Maps {
+				explicit["src."+e.RHS] = true
+			}
+			for _, e := range m.Literals {
+				explicit[e.RHS] = true
+			}
+			st.Inc("n:explicit_source_decisions")
+			switch {
+			case want != "" && got != want:
+				diffs = append(diffs, fmt.Sprintf("explicit source not honoured: dst.%s = %s, notation says %s", f, got, want))
+			case want == "" && explicit[got] && (len(m.Literals) > 0 || len(m.Maps) > 0):
+				// the value of a :map/:literal written for ANOTHER spelling of the path was applied
+				// ... unless it simply is what the default name match yields for this field
+				name := strings.TrimPrefix(got, "src.")
+				isOwn := strings.HasPrefix(got, "src.") && (name == f || (!m.ExactCase && strings.EqualFold(name, f)))
+				if !isOwn {
+					diffs = append(diffs, fmt.Sprintf("explicit source applied although its path differs in case: dst.%s = %s", f, got))
+				}
 			}
 		}
 		sort.Strings(diffs)
